@@ -33,7 +33,7 @@ def cases(tier, seed):
     out = []
     for cl in CLASSES:
         for after in (False, True):
-            for g in (['naive'] if cl == 'orderbook' else (GRIDS if tier == 'thorough' or cl in ('contract_dicts',) else (['cet'] if cl.startswith('contract_aware') else ['naive']))):
+            for g in (['naive'] if cl == 'orderbook' else (['cet'] if cl.startswith('contract_aware') else (GRIDS if tier == 'thorough' or cl in ('contract_dicts',) else ['naive']))):      # (zone-aware dates need a zone-aware grid)
                 out.append(('%s_%s_%s' % (cl, 'after_setup' if after else 'fresh', g), dict(kind='asset', cls=cl, after=after, grid=g)))
     for g in ('naive', 'cet', 'cet_dst_repeated_hour', 'us_eastern', 'day_unit', 'quarter_hours_minute_unit_cet', 'seconds_cet'):
         if tier != 'thorough' and g == 'us_eastern':
